@@ -532,6 +532,10 @@ P('run_names', ['relation a(i32)', 'relation b(i32)', 'relation c(i32)', 'relati
 P('run_names2', ['relation a(i32)', 'relation b(i32)', 'relation c(i32)', 'relation out(i32)'],
   ['a(*v) <-- for v in input.iter()', 'b(x) <-- a(x)', 'c(x) <-- a(x)', 'out(x + before_rule) <-- a(x), b(x), c(y), if x < y'],
   macro='ascent_run', params='input: &[i32], before_rule: i32', attrs=['measure_rule_times'], tags=['run', 'free_ident'], crate='corpus_run2')
+# a function of the program's module that is spelled like a parameter of the generated run_timeout
+both('timeout_names', ['relation q(i32)', 'relation p(i32)', 'relation s(i32, i32)'],
+     ['p(x) <-- q(x), if timeout(*x)', 's(x, y) <-- p(x), q(y), if timeout(x + y)', 'p(y) <-- s(_, y), if !timeout(*y)'],
+     attrs=['generate_run_timeout'], pre='   pub fn timeout(x: i32) -> bool { x % 3 == 0 }', tags=['timeout', 'free_ident'], crate='corpus_run2')
 # ---- S-level: permutations / renamings (both sides are translation-validated; their specs are equal as sets)
 both('t_perm_rules', [E2, 'relation path(i32, i32)'], ['path(x, z) <-- edge(x, y), path(y, z)', 'path(x, y) <-- edge(x, y)'],
      tags=['twin'], twin=('tc_lin', 'L'))
